@@ -603,7 +603,7 @@ func TestRaceMidicatHistories(t *testing.T) {
 	if !raceMode() {
 		t.Skip("part B runs in the race build")
 	}
-	n := ev.N(8, 25)
+	n := ev.N(8, 60)
 	ev.SetupRapid("C17/midicatdrv-histories", n)
 	var cases []CaseB
 	rapid.Check(t, func(rt *rapid.T) { cases = append(cases, genB(rt)) })
